@@ -4,7 +4,7 @@
     only (proofs: Proofs/OidcFacts.v). *)
 From Coq Require Import List NArith ZArith Bool Lia.
 From Coq.Strings Require Import Byte.
-From RDPGW Require Import Lib.Bytes Gen.Consts Model.Oidc Proofs.OidcFacts.
+From RDPGW Require Import Lib.Bytes Gen.Consts Model.Oidc Proofs.OidcFacts Gen.Facts.
 Import ListNotations.
 Open Scope Z_scope.
 
@@ -80,3 +80,32 @@ Example C13_example :
                 OConnect 7 11; OConnect 8 12]
   = [OutToIdP 1%N; OutCb500; OutToIdP 2%N; OutCb400; OutCbRedirect; OutFile [x62; x6f; x62]; OutToIdP 3%N].
 Proof. vm_compute. reflexivity. Qed.
+
+(** The decisions of the transcribed functions, as the source has them now (regenerated by the
+    translator: conditions, case labels, returns, branches, go and defer statements in source order).
+    The model is a transcription of exactly this text. *)
+Theorem C13_decisions_as_transcribed :
+  DECISIONS_HandleCallback =
+    [[x69; x66; x20; x21; x66; x6f; x75; x6e; x64] (* if !found *);
+     [x72; x65; x74; x75; x72; x6e] (* return *);
+     [x69; x66; x20; x65; x72; x72; x21; x3d; x6e; x69; x6c] (* if err!=nil *);
+     [x72; x65; x74; x75; x72; x6e] (* return *);
+     [x69; x66; x20; x21; x6f; x6b] (* if !ok *);
+     [x72; x65; x74; x75; x72; x6e] (* return *);
+     [x69; x66; x20; x65; x72; x72; x21; x3d; x6e; x69; x6c] (* if err!=nil *);
+     [x72; x65; x74; x75; x72; x6e] (* return *);
+     [x69; x66; x20; x65; x72; x72; x3a; x3d; x69; x64; x54; x6f; x6b; x65; x6e; x2e; x43; x6c; x61; x69; x6d; x73; x28; x26; x72; x65; x73; x70; x2e; x49; x44; x54; x6f; x6b; x65; x6e; x43; x6c; x61; x69; x6d; x73; x29; x3b; x20; x65; x72; x72; x21; x3d; x6e; x69; x6c] (* if err:=idToken.Claims(&resp.IDTokenClaims); err!=nil *);
+     [x72; x65; x74; x75; x72; x6e] (* return *);
+     [x69; x66; x20; x65; x72; x72; x3a; x3d; x6a; x73; x6f; x6e; x2e; x55; x6e; x6d; x61; x72; x73; x68; x61; x6c; x28; x2a; x72; x65; x73; x70; x2e; x49; x44; x54; x6f; x6b; x65; x6e; x43; x6c; x61; x69; x6d; x73; x2c; x26; x64; x61; x74; x61; x29; x3b; x20; x65; x72; x72; x21; x3d; x6e; x69; x6c] (* if err:=json.Unmarshal( *resp.IDTokenClaims,&data); err!=nil *);
+     [x72; x65; x74; x75; x72; x6e] (* return *);
+     [x69; x66; x20; x75; x73; x65; x72; x4e; x61; x6d; x65; x3d; x3d; x22; x22] (* if userName=="" *);
+     [x72; x65; x74; x75; x72; x6e] (* return *);
+     [x69; x66; x20; x65; x72; x72; x3d; x53; x61; x76; x65; x53; x65; x73; x73; x69; x6f; x6e; x49; x64; x65; x6e; x74; x69; x74; x79; x28; x72; x2c; x77; x2c; x69; x64; x29; x3b; x20; x65; x72; x72; x21; x3d; x6e; x69; x6c] (* if err=SaveSessionIdentity(r,w,id); err!=nil *)] /\
+  DECISIONS_Authenticated =
+    [[x72; x65; x74; x75; x72; x6e; x20; x68; x74; x74; x70; x2e; x48; x61; x6e; x64; x6c; x65; x72; x46; x75; x6e; x63; x28; x3c; x2a; x61; x73; x74; x2e; x46; x75; x6e; x63; x4c; x69; x74; x3e; x29] (* return http.HandlerFunc(<*ast.FuncLit>) *);
+     [x69; x66; x20; x21; x69; x64; x2e; x41; x75; x74; x68; x65; x6e; x74; x69; x63; x61; x74; x65; x64; x28; x29] (* if !id.Authenticated() *);
+     [x69; x66; x20; x65; x72; x72; x21; x3d; x6e; x69; x6c] (* if err!=nil *);
+     [x72; x65; x74; x75; x72; x6e] (* return *);
+     [x72; x65; x74; x75; x72; x6e] (* return *)].
+Proof. vm_compute. repeat split; reflexivity. Qed.
+Print Assumptions C13_decisions_as_transcribed.
